@@ -132,6 +132,9 @@ PROPS["C08"] = dict(
 )
 
 _QUERY_COMMON = dict(
+    # per-statement step cap: exceeding it is "inconclusive, not judged" in these checks (a legitimately huge cross
+    # product), so the quick tier keeps it low enough for a case to stay well inside its wall-clock allowance
+    env=dict(quick=dict(BW_MAXSTEPS=1500000), thorough=dict(BW_MAXSTEPS=6000000)),
     simulated=True,
     level="exploration",
     instrument=ENGINE_FILES,
